@@ -1,1 +1,322 @@
-pub mod placeholder {}
+//! Distribution header (atom cache) and fragment layouts, written from erl_dist_protocol
+//! ("Distribution Header", "Protocol between Connected Nodes").
+//!
+//! `131 68 NumberOfAtomCacheRefs [Flags AtomCacheRefs]`; Flags = NumberOfAtomCacheRefs/2+1 bytes of
+//! half-bytes, least significant half first; half-byte i: bit 3 NewCacheEntryFlag, bits 0..2
+//! SegmentIndex; the half-byte after the last reference: bit 0 LongAtoms.  A new entry is
+//! `InternalSegmentIndex Length(1|2) AtomText`, an existing one `InternalSegmentIndex`.
+//! Cache slot = SegmentIndex*256 + InternalSegmentIndex.  `82 i` in the terms that follow means
+//! the i-th reference of this header.
+
+use crate::etf::{Dec, Enc, Picker, RefErr};
+use crate::value::Value;
+use std::collections::HashMap;
+
+pub const CACHE_SLOTS: usize = 2048;
+
+#[derive(Clone)]
+pub struct PeerCache {
+    pub slots: Vec<Option<String>>,
+}
+
+impl Default for PeerCache {
+    fn default() -> Self {
+        PeerCache { slots: vec![None; CACHE_SLOTS] }
+    }
+}
+
+#[derive(Debug, Clone, PartialEq, Eq)]
+pub struct HeaderRef {
+    pub slot: u16,
+    pub new: bool,
+    pub atom: String,
+}
+
+#[derive(Debug, Clone, PartialEq, Eq)]
+pub enum HdrErr {
+    Eof,
+    Utf8,
+    EmptySlot(u16),
+    NotAHeader,
+}
+
+/// Read `NumberOfAtomCacheRefs Flags AtomCacheRefs` (input starts right after `131 68`).
+/// Updates the receiver-side cache; returns the atoms by header position and the bytes consumed.
+pub fn hdr_read(b: &[u8], cache: &mut PeerCache) -> Result<(Vec<HeaderRef>, usize), HdrErr> {
+    let n = *b.first().ok_or(HdrErr::Eof)? as usize;
+    if n == 0 {
+        return Ok((vec![], 1));
+    }
+    let flen = n / 2 + 1;
+    if b.len() < 1 + flen {
+        return Err(HdrErr::Eof);
+    }
+    let flags = &b[1..1 + flen];
+    let nib = |i: usize| -> u8 {
+        let byte = flags[i / 2];
+        if i % 2 == 0 {
+            byte & 0x0f
+        } else {
+            byte >> 4
+        }
+    };
+    let long = nib(n) & 1 != 0;
+    let mut p = 1 + flen;
+    let mut refs = vec![];
+    for i in 0..n {
+        let f = nib(i);
+        let seg = (f & 7) as u16;
+        let new = f & 8 != 0;
+        let idx = *b.get(p).ok_or(HdrErr::Eof)? as u16;
+        p += 1;
+        let slot = seg * 256 + idx;
+        if new {
+            let len = if long {
+                if b.len() < p + 2 {
+                    return Err(HdrErr::Eof);
+                }
+                let l = u16::from_be_bytes([b[p], b[p + 1]]) as usize;
+                p += 2;
+                l
+            } else {
+                let l = *b.get(p).ok_or(HdrErr::Eof)? as usize;
+                p += 1;
+                l
+            };
+            if b.len() < p + len {
+                return Err(HdrErr::Eof);
+            }
+            let atom = String::from_utf8(b[p..p + len].to_vec()).map_err(|_| HdrErr::Utf8)?;
+            p += len;
+            cache.slots[slot as usize] = Some(atom.clone());
+            refs.push(HeaderRef { slot, new, atom });
+        } else {
+            let atom = cache.slots[slot as usize].clone().ok_or(HdrErr::EmptySlot(slot))?;
+            refs.push(HeaderRef { slot, new, atom });
+        }
+    }
+    Ok((refs, p))
+}
+
+/// Write `NumberOfAtomCacheRefs Flags AtomCacheRefs` for the given references.
+pub fn hdr_write(refs: &[HeaderRef]) -> Vec<u8> {
+    let n = refs.len();
+    assert!(n <= 255);
+    let mut out = vec![n as u8];
+    if n == 0 {
+        return out;
+    }
+    let long = refs.iter().any(|r| r.new && r.atom.len() > 255);
+    let flen = n / 2 + 1;
+    let mut flags = vec![0u8; flen];
+    let mut set = |i: usize, v: u8| {
+        if i % 2 == 0 {
+            flags[i / 2] |= v & 0x0f
+        } else {
+            flags[i / 2] |= (v & 0x0f) << 4
+        }
+    };
+    for (i, r) in refs.iter().enumerate() {
+        set(i, ((r.slot / 256) as u8 & 7) | if r.new { 8 } else { 0 });
+    }
+    if long {
+        set(n, 1);
+    }
+    out.extend_from_slice(&flags);
+    for r in refs {
+        out.push((r.slot % 256) as u8);
+        if r.new {
+            if long {
+                out.extend_from_slice(&(r.atom.len() as u16).to_be_bytes());
+            } else {
+                out.push(r.atom.len() as u8);
+            }
+            out.extend_from_slice(r.atom.as_bytes());
+        }
+    }
+    out
+}
+
+/// Everything an independent receiver learns from one `131 68 ...` message.
+#[derive(Debug)]
+pub struct DistMessage {
+    pub refs: Vec<HeaderRef>,
+    pub control: Value,
+    pub payload: Option<Value>,
+}
+
+#[derive(Debug)]
+pub enum DistErr {
+    Hdr(HdrErr),
+    Term(RefErr),
+    Trailing(usize),
+}
+
+/// Independent reader of a complete header-mode message `131 68 hdr Control [Payload]`.
+pub fn read_dist_message(b: &[u8], cache: &mut PeerCache) -> Result<DistMessage, DistErr> {
+    if b.len() < 2 || b[0] != 131 || b[1] != 68 {
+        return Err(DistErr::Hdr(HdrErr::NotAHeader));
+    }
+    let (refs, used) = hdr_read(&b[2..], cache).map_err(DistErr::Hdr)?;
+    let atoms: Vec<String> = refs.iter().map(|r| r.atom.clone()).collect();
+    let body = &b[2 + used..];
+    let mut d = Dec::new(body);
+    d.atoms = Some(&atoms);
+    let control = d.term().map_err(DistErr::Term)?;
+    let payload = if d.pos < body.len() { Some(d.term().map_err(DistErr::Term)?) } else { None };
+    if d.pos != body.len() {
+        return Err(DistErr::Trailing(body.len() - d.pos));
+    }
+    Ok(DistMessage { refs, control, payload })
+}
+
+/// Sender model with a persistent 2048-slot cache.
+#[derive(Clone)]
+pub struct SenderCache {
+    pub slots: Vec<Option<String>>,
+}
+
+impl Default for SenderCache {
+    fn default() -> Self {
+        SenderCache { slots: vec![None; CACHE_SLOTS] }
+    }
+}
+
+pub fn atoms_of(v: &Value, out: &mut Vec<String>) {
+    v.walk(&mut |x| {
+        let mut add = |s: &String| {
+            if !out.contains(s) {
+                out.push(s.clone())
+            }
+        };
+        match x {
+            Value::Atom(a) => add(a),
+            Value::Pid { node, .. } | Value::Port { node, .. } | Value::Ref { node, .. } => add(node),
+            Value::ExportFun { module, function, .. } => {
+                add(module);
+                add(function)
+            }
+            Value::Fun { module, .. } => add(module),
+            _ => {}
+        }
+    });
+}
+
+/// A conforming sender: encode `control` (+ `payload`) with a distribution header.  For each
+/// distinct atom (up to 255, the rest stay inline) `slot_of` picks the cache slot; an atom
+/// already in that slot is referenced, otherwise the slot is (over)written.  `order` permutes the
+/// header positions so that position != slot in general.
+pub fn sender_encode(
+    control: &Value,
+    payload: Option<&Value>,
+    cache: &mut SenderCache,
+    slot_of: &mut dyn FnMut(&str) -> Option<u16>,
+    picker: &mut dyn Picker,
+) -> (Vec<u8>, Vec<HeaderRef>) {
+    let mut atoms = vec![];
+    atoms_of(control, &mut atoms);
+    if let Some(p) = payload {
+        atoms_of(p, &mut atoms);
+    }
+    let mut refs: Vec<HeaderRef> = vec![];
+    let mut used_slots: Vec<u16> = vec![];
+    for a in atoms {
+        if refs.len() >= 255 || a.len() > 65535 {
+            break;
+        }
+        if let Some(slot) = slot_of(&a) {
+            let slot = slot % CACHE_SLOTS as u16;
+            if used_slots.contains(&slot) {
+                continue; // two atoms of one message cannot share a slot; this one stays inline
+            }
+            used_slots.push(slot);
+            let present = cache.slots[slot as usize].as_deref() == Some(a.as_str());
+            cache.slots[slot as usize] = Some(a.clone());
+            refs.push(HeaderRef { slot, new: !present, atom: a });
+        }
+    }
+    let map: HashMap<String, u8> = refs.iter().enumerate().map(|(i, r)| (r.atom.clone(), i as u8)).collect();
+    let mut out = vec![131u8, 68];
+    out.extend_from_slice(&hdr_write(&refs));
+    let mut e = Enc::new(picker);
+    e.allow_local = false;
+    e.allow_legacy = false;
+    e.atom_refs = Some(&map);
+    e.term(control);
+    if let Some(p) = payload {
+        e.term(p);
+    }
+    out.extend_from_slice(&e.out);
+    (out, refs)
+}
+
+/// Fragment a complete header-mode message (`131 68 rest`) the way the protocol prescribes:
+/// first `131 69 Seq(8) FragId(8) rest[..c0]`, then `131 70 Seq(8) FragId(8) data` counting down to 1.
+/// `cuts` are split points into `rest` (ascending, may repeat = empty fragments).
+pub fn fragment(msg: &[u8], seq: u64, cuts: &[usize]) -> Vec<Vec<u8>> {
+    assert!(msg.len() >= 2 && msg[0] == 131 && msg[1] == 68);
+    let rest = &msg[2..];
+    let mut pts: Vec<usize> = cuts.iter().map(|c| (*c).min(rest.len())).collect();
+    pts.sort();
+    let n = pts.len() as u64 + 1;
+    let mut frames = vec![];
+    let mut start = 0;
+    for (k, end) in pts.iter().copied().chain(std::iter::once(rest.len())).enumerate() {
+        let id = n - k as u64;
+        let mut f = vec![131u8, if k == 0 { 69 } else { 70 }];
+        f.extend_from_slice(&seq.to_be_bytes());
+        f.extend_from_slice(&id.to_be_bytes());
+        f.extend_from_slice(&rest[start..end]);
+        frames.push(f);
+        start = end;
+    }
+    frames
+}
+
+#[cfg(test)]
+mod tests {
+    use super::*;
+    use crate::etf::Canonical;
+    #[test]
+    fn header_roundtrip() {
+        for n in [0usize, 1, 2, 3, 4, 5, 254, 255] {
+            for long in [false, true] {
+                let refs: Vec<HeaderRef> = (0..n)
+                    .map(|i| HeaderRef {
+                        slot: ((i * 37) % 2048) as u16,
+                        new: i % 3 != 1,
+                        atom: if long && i == 0 { "x".repeat(300) } else { format!("a{i}") },
+                    })
+                    .collect();
+                let mut sc = PeerCache::default();
+                for r in &refs {
+                    if !r.new {
+                        sc.slots[r.slot as usize] = Some(r.atom.clone());
+                    }
+                }
+                let b = hdr_write(&refs);
+                let (got, used) = hdr_read(&b, &mut sc).unwrap();
+                assert_eq!(used, b.len());
+                assert_eq!(got, refs);
+            }
+        }
+    }
+    #[test]
+    fn sender_receiver() {
+        let mut sc = SenderCache::default();
+        let mut pc = PeerCache::default();
+        let ctrl = Value::Tuple(vec![Value::int(2), Value::atom(""), Value::Pid { node: "n@h".into(), id: 1, serial: 2, creation: 3 }]);
+        let pay = Value::list(vec![Value::atom("hello"), Value::atom("n@h"), Value::atom("hello")]);
+        for round in 0..3 {
+            let mut k = 0u16;
+            let mut slot_of = |_a: &str| {
+                k += 300;
+                Some(k + round)
+            };
+            let (b, _) = sender_encode(&ctrl, Some(&pay), &mut sc, &mut slot_of, &mut Canonical);
+            let m = read_dist_message(&b, &mut pc).unwrap();
+            assert_eq!(m.control, ctrl);
+            assert_eq!(m.payload.unwrap(), pay);
+        }
+    }
+}
